@@ -1,6 +1,7 @@
 """Client lab: runs the real sievelib.managesieve.Client over the recording transport."""
 from __future__ import annotations
 
+import contextlib
 import random
 import socket
 import ssl
@@ -16,17 +17,32 @@ Error = sl_ms.Error
 
 STEP_LIMIT = 400000
 
+# Client(debug=True) only adds traces on stdout; every 4th session runs with it unless the
+# check decides itself (nothing a property states depends on the switch)
+_SESSIONS = [0]
+
+
+class _Sink:
+    def write(self, s):
+        return len(s)
+
+    def flush(self):
+        pass
+
 
 class Session:
     """One client object wired to one server model."""
 
-    def __init__(self, server: ms.Server, seg: ms.Seg = None, tls_outcome="ok"):
+    def __init__(self, server: ms.Server, seg: ms.Seg = None, tls_outcome="ok", debug=None):
         self.server = server
         self.wire = ms.Wire()
         self.seg = seg or ms.Seg()
         self.sock = None
         self.tls_outcome = tls_outcome
-        self.client = Client("server.example.com")
+        _SESSIONS[0] += 1
+        self.debug = (_SESSIONS[0] % 4 == 0) if debug is None else bool(debug)
+        self.client = Client("server.example.com", debug=True) if self.debug \
+            else Client("server.example.com")
         self.connect_count = 0
 
     # -- patched factories
@@ -46,7 +62,11 @@ class Session:
         ssl.create_default_context = self._create_default_context
         try:
             fn = getattr(self.client, name)
-            kind, val, steps = core.guarded(fn, STEP_LIMIT, *args, **kw)
+            if self.debug:
+                with contextlib.redirect_stdout(_Sink()):
+                    kind, val, steps = core.guarded(fn, STEP_LIMIT, *args, **kw)
+            else:
+                kind, val, steps = core.guarded(fn, STEP_LIMIT, *args, **kw)
         finally:
             socket.create_connection, ssl.create_default_context = oc, oc2
         if kind == "ret":
@@ -66,12 +86,12 @@ class Session:
         return left, buf
 
 
-def authed_session(server=None, seg=None, **server_kw):
+def authed_session(server=None, seg=None, debug=None, **server_kw):
     """Session with a connected + authenticated client (PLAIN), or None."""
     if server is None:
         server_kw.setdefault("users", {b"user": b"pw"})
         server = ms.Server(**server_kw)
-    s = Session(server, seg)
+    s = Session(server, seg, debug=debug)
     r = s.connect("user", "pw")
     return s, r
 
